@@ -347,7 +347,7 @@ def plain_config(p, save_dir, chunks_dir, slp, key):
             "pretrained_head_weights": None,
             "backbone_config": {"unet": {"in_channels": 3 if p.get("is_rgb") else 1, "kernel_size": 3, "filters": 4, "filters_rate": 1.5,
                                          "max_stride": 8, "convs_per_block": 2, "stacks": 1, "stem_stride": None,
-                                         "middle_block": True, "up_interpolate": True, "output_stride": 2}},
+                                         "middle_block": True, "up_interpolate": True, "output_stride": p.get("bb_stride", 2)}},
             "head_configs": head_cfg(p["model_type"]),
         },
         "trainer_config": {
